@@ -44,7 +44,8 @@ def families(rng, thorough):
     for X in (A, I):
         fams.append([{"s": "Optional", "arg": X}, {"s": "Pipe", "args": [X, NONE]}, {"s": "Pipe", "args": [NONE, X]},
                      {"s": "Union", "args": [X, NONE]}, {"s": "Union", "args": [NONE, X]}])  # (X, None) as a tuple is not among the listed equivalent forms
-    fams.append([{"s": "missing"}, {"s": "any"}, {"s": "object"}, {"s": "Annotated", "arg": {"s": "object"}}])
+    fams.append([{"s": "missing"}, {"s": "any"}, {"s": "object"}, {"s": "Annotated", "arg": {"s": "object"}},
+                 {"s": "Annotated", "arg": {"s": "any"}}, {"s": "Str", "arg": {"s": "any"}}])
     for X in (A, I, {"s": "list", "arg": A}):
         fams.append([X, {"s": "Annotated", "arg": X}, {"s": "Str", "arg": X}])
     for X in (A, I):
